@@ -226,6 +226,12 @@ func CheckAll(run *report.Run, p *load.Program, ruleID string) {
 	run.SetConfig(p.Cfg.ID)
 	c := newChecker(p, &runSink{run, ruleID}, crossFor(run, ruleID))
 	c.runAll()
+	var names []string
+	for n := range c.seen {
+		names = append(names, n)
+	}
+	sort.Strings(names)
+	run.Extra["constants_checked_"+p.Cfg.ID] = names
 }
 
 // CheckNamed checks the named constants only.  Names are qualified by the
@@ -252,6 +258,7 @@ type Val struct {
 	Limbs []*big.Int // limb vector, if the constant is one
 	Radix string     // "51x5", "25.5x10", "52x5", "29x9" or ""
 	Bytes []byte     // byte-array constants
+	Elems []*Val     // Edwards points: the coordinates X, Y, Z, T (Name "…#X" etc.)
 }
 
 // Value reads the literal value of a field element, unpacked scalar, integer
@@ -291,6 +298,16 @@ func Value(p *load.Program, qualifiedName string) (*Val, error) {
 		v.Limbs, v.Radix, v.Int = lm.V, lm.Radix, lm.Value()
 		return v, nil
 	}
+	if named(l.Type) == "curve.EdwardsPoint" || named(l.Type) == "curve.RistrettoPoint" {
+		ep, err := r.edwardsPoint(l)
+		if err != nil {
+			return nil, fmt.Errorf("econst.Value: %s: %v", qualifiedName, err)
+		}
+		for i, lm := range []*Limbs{ep.X, ep.Y, ep.Z, ep.T} {
+			v.Elems = append(v.Elems, &Val{Name: qualifiedName + "#" + "XYZT"[i:i+1], Pos: p.Pos(lm.Pos), Limbs: lm.V, Radix: lm.Radix, Int: lm.Value()})
+		}
+		return v, nil
+	}
 	if b, _, err := r.bytesOf(l); err == nil {
 		v.Bytes, v.Int = b, fromLE(b)
 		return v, nil
@@ -315,6 +332,14 @@ func splitQualified(q string) (rel, name string, ok bool) {
 		i = slash + 1 + j
 	}
 	return q[:i], q[i+1:], true
+}
+
+// Definition returns the defining formula of a table entry.
+func Definition(name string) (doc string, ok bool) {
+	if d := defByName(name); d != nil {
+		return d.doc, true
+	}
+	return "", false
 }
 
 // Names lists the qualified names of the definition table (for callers that
